@@ -1,8 +1,8 @@
-_c08_floors = {"distinct": 50000, "exhaustive_cases": 1016, "exhaustive_cases_completed": 1008, "exhaustive_sequences": 500000, "checks:status": 1000000, "checks:reassembled-content": 100000, "checks:untouched": 10000,
+_c08_floors = {"distinct": 50000, "exhaustive_cases": 1016, "exhaustive_cases_completed": 1016, "exhaustive_sequences": 500000, "checks:status": 1000000, "checks:reassembled-content": 100000, "checks:untouched": 10000,
                      "ev:duplicate": 10000, "ev:duplicate-after-completion": 10000, "ev:new-fragment-after-completion/completes": 10000, "ev:new-fragment-after-completion": 10000,
                      "ev:last-fragment-arrives-first": 10000, "ev:completed-by-first-fragment": 5000, "ev:completed-by-middle-fragment": 5000, "ev:completed-by-last-fragment": 5000,
                      "ev:completion-while-others-pending": 5000, "ev:fragment-while-others-pending": 50000, "ev:unfragmented-with-key-of-pending-datagram": 500, "ev:non-ip": 1000,
-                     "rel:same-id-pairs-share-one-address-same-role": 500, "rel:same-id-pairs-share-one-address-opposite-role": 500, "rel:same-id-disjoint-pairs": 100, "rel:same-pair-different-id": 500,
+                     "rel:same-id-pairs-share-one-address-same-role": 500, "rel:same-id-pairs-share-one-address-opposite-role": 500, "rel:same-id-disjoint-pairs": 100, "rel:same-pair-different-id": 500, "rel:same-id-reversed-pair": 500,
                      "shape:all-8-byte-fragments": 500, "shape:huge-plus-tiny": 500, "shape:9-64-fragments": 1000, "shape:more-than-64-fragments": 10, "shape:options-first-fragment-differs": 500,
                      "shape:ttl-differs-between-fragments": 5000, "shape:total-length-near-65535": 50, "shape:key-reused-after-completion": 1000, "shape:unfragmented-with-DF": 1000,
                      "proto:UDP": 1000, "proto:TCP": 1000, "proto:ICMP": 1000, "proto:other": 1000, "link:raw": 1000, "link:eth": 1000, "link:vlan": 1000, "link:sll": 1000}
@@ -24,7 +24,7 @@ PROPS["C08"] = dict(
     rule="case = (set of datagrams (id, src, dst, protocol, link layer, options, payload, partition at multiples of 8), arrival order with duplicates, interleaving, unfragmented/non-IP packets); "
          "distinct = distinct (datagram shapes, ordered event list); non-trivial = every history contains >=1 fragmented datagram and is checked after each packet; "
          "exhaustive part: 16..40-byte payloads, all partitions x all orders x <=2 duplicates, and all interleavings of two small datagrams",
-    floors=dict(quick=_c08_floors, thorough=dict(_c08_floors, exhaustive_cases=2040, exhaustive_cases_completed=2032, exhaustive_sequences=4000000, distinct=1000000)),
+    floors=dict(quick=_c08_floors, thorough=dict(_c08_floors, exhaustive_cases=2040, exhaustive_cases_completed=2040, exhaustive_sequences=4000000, distinct=1000000)),
     assumptions=["fragments of one datagram do not overlap and never carry DF; duplicates are exact copies",
                  "the reference forgets a datagram when it completes: later duplicates start a new accumulation, and a second complete set is reassembled again",
                  "a (id, src, dst) triple is used by one datagram at a time (it may be re-used after completion once nothing stale is pending)",
